@@ -140,7 +140,7 @@ theorem recv_AllEx (hf : Fresh P) {s : State} (h : AllEx P s) (remote : Remote) 
   · exact recvDup_AllEx hf h _ _
   · dsimp only
     apply recvCode_AllEx hf
-    have h0 : AllEx P (if isRequest w.code = true then
+    have h0 : AllEx P (if dedupable w = true then
         { s with recent := s.recent ++ [{ remote, mid := w.mid, reply := none,
                                           expiry := s.now + s.cfg.exchangeLifetime }] } else s) := by
       split
